@@ -24,7 +24,7 @@ func configs(base func() *ph.Def, requireOrder []bool) []*ph.Def {
 }
 
 func defC03() *ph.Def {
-	return &ph.Def{Root: ph.CmdDef{Name: "prog",
+	return &ph.Def{Help: "help", Root: ph.CmdDef{Name: "prog",
 		Opts: []ph.OptDef{
 			{Name: "a", Kind: ph.Bool},
 			{Name: "b", Kind: ph.Bool},
@@ -89,7 +89,10 @@ func init() {
 				depth = 5
 			}
 			alpha := []string{"p", "", "-", "--", "--a", "-a", "-ab", "-az", "-zy", "--s", "--s=v", "--l", "--zz", "-z", "--zz=1", "c", "e", "v", "--n", "5", "--m=k=v"}
-			ext := []string{"-dz", "--d", "-zd"} // options only the command knows, given before the command name, alone and bundled with an unknown letter
+			// options only the command knows, given before the command name, alone and bundled with an unknown letter;
+			// the help option (HelpCommand) in the middle of a command line; dashes directly followed by `=`;
+			// a bundle whose valued letter is not the last one
+			ext := []string{"-dz", "--d", "-zd", "--help", "-=5", "--=x", "-sa", "-sz"}
 			defs := configs(defC03, []bool{false, true})
 			// the command sets an unknown-mode of its own (SetUnknownMode after NewCommand)
 			for _, d := range configs(defC03, []bool{false}) {
@@ -172,13 +175,24 @@ func judgeC03x(pc *parserCase) ([]string, c03info) {
 	// (ii) exactly the tokens the reference model does not classify as consumed.  Which unknown-option policy applies
 	// (zone U15: different unknown modes along the command path) and whether Parse should have failed because of an
 	// unknown option are other properties' business: whenever Parse did succeed, conservation is owed.
-	onlyU15 := len(ex.Unspec) == 0 || (len(ex.Unspec) == 1 && ex.Unspec[0] == "U15")
+	onlyU15 := true
+	hasU4 := false
+	for _, z := range ex.Unspec {
+		if z == "U4" {
+			hasU4 = true // `-=x`, `--=x`: text or unknown option - kept either way
+		} else if z != "U15" {
+			onlyU15 = false
+		}
+	}
+	if hasU4 && ex.Err {
+		onlyU15 = false
+	}
 	if onlyU15 && (!ex.Err || ex.ErrKind == "unknown") {
 		info.inDomain = true
 		info.key = outcomeKey(o)
 		info.unknownKept = len(ex.Unknowns) > 0
 		info.command = ex.Level != ""
-		info.mixedPolicy = len(ex.Unspec) == 1
+		info.mixedPolicy = len(ex.Unspec) >= 1 && !hasU4
 		if !eqStr(ex.RemainingAll, o.Remaining) {
 			out = append(out, fmt.Sprintf("remaining: got %q, want %q", o.Remaining, ex.RemainingAll))
 		}
